@@ -111,6 +111,37 @@ pub fn scenario(prog: &str, primary_reads: bool, default_role: &str) -> Scenario
     }
 }
 
+/// Parser off: every statement of a fresh session goes to the pool's default role, in every session.
+pub fn default_role_scenario(default_role: &str) -> Scenario {
+    let mut pool = PoolCfg::simple("db", "transaction", 2, 1, 2);
+    pool.extra = format!("query_parser_enabled = false\ndefault_role = \"{}\"\n", default_role);
+    let cfg = Cfg::one(pool);
+    let servers = cfg.servers();
+    let mut actors = Vec::new();
+    for c in 0..2usize {
+        let mut s = Script::new(&format!("c{}", c));
+        if c == 1 {
+            s = s.wait(crate::world::Cond::ActorsDone(vec![0]));
+        }
+        s = s.connect("alice", "db", Some("alicepw"));
+        for j in 0..3 {
+            s = s.q(&stmt(&format!("INSERT INTO t1 VALUES ({})", j), &tag(c, j, 0), default_role));
+            s = s.q(&stmt("SELECT * FROM t1", &tag(c, j + 10, 0), default_role));
+        }
+        s = s.send_z(ext(&stmt("UPDATE t1 SET a = 2", &tag(c, 20, 0), default_role)), "P B E S");
+        actors.push(s.terminate().actor());
+    }
+    Scenario {
+        name: format!("C05 prog=default-role-fresh-session primary_reads=- default_role={}", default_role),
+        toml: cfg.toml(),
+        alt_tomls: vec![],
+        servers,
+        actors,
+        opts: Opts { explore_perms: true, ..Opts::default() },
+        meta: serde_json::Value::Null,
+    }
+}
+
 fn role_of_server(addr: &str) -> &'static str {
     // pg-s<shard>-<p|r><idx>
     match addr.split('-').nth(2).and_then(|x| x.chars().next()) {
@@ -194,12 +225,15 @@ pub fn build(tier: &str) -> SimCheck {
             }
         }
     }
+    for d in ["primary", "replica", "any"] {
+        scenarios.push(default_role_scenario(d));
+    }
     SimCheck {
         scenarios,
         oracle: Box::new(oracle),
         bound: 1,
         limits: Limits::default(),
-        rule: "sim: 1 primary + 2 replicas, 6 programs (inferred routing over simple and extended protocol incl. transactions and recomputation, SET SERVER ROLE primary/replica/any then both protocols, all replicas down, primary down) x primary_reads on/off (x default_role in thorough), every candidate order (enumerated shuffle) with 1 deviation".into(),
+        rule: "sim: 1 primary + 2 replicas, 6 programs (inferred routing over simple and extended protocol incl. transactions and recomputation, SET SERVER ROLE primary/replica/any then both protocols, all replicas down, primary down) x primary_reads on/off (x default_role in thorough), every candidate order (enumerated shuffle) with 1 deviation; plus parser off: two fresh sessions under default_role primary / replica / any".into(),
         assumptions: vec!["server role read off the labelled backend address".into()],
     }
 }
